@@ -639,3 +639,64 @@ def c09(res, tier, rng, wd):
                            "no role, two roles, other self-signed, none} x offered versions {1.2}, {1.3}, {1.2,1.3}: real handshakes on loopback; "
                            "outcome and negotiated version must equal TlsAdmission!Admit; a Modbus request on a rejected connection is never "
                            "processed; the role seen by the authorization handler must be the certificate's")
+
+
+# --------------------------------------------------------------------------- E5 based checks
+import e5  # noqa: E402
+
+E5_ASSUME = ["TLC and FfiTrace.tla (conversion tables, completion protocol, database maps) with ModbusPdu.tla",
+             "the C ABI is exercised through the extern \"C\" functions of rodbus-ffi linked as an rlib (same symbols the C/C++/.NET/Java wrappers call); the wrappers above it are not exercised",
+             "real loopback sockets and wall-clock waits with generous upper bounds"]
+
+
+def report_e5(res, pid, rejs):
+    for sc, r in rejs:
+        text = e5.describe_rejection(sc, r)
+        fid = match_known(pid, "e5", sc, r)
+        if fid:
+            res.known(fid[0], fid[1])
+        else:
+            res.violation(text, e5.replay_obj(pid, sc, r))
+
+
+def _replay_e5(res, pid, obj, wd):
+    report_e5(res, pid, e5.check_scripts(res, [obj["scenario"]], wd, "replay"))
+
+
+REPLAYERS["e5"] = _replay_e5
+
+
+@check("C18")
+def c18(res, tier, rng, wd):
+    thorough = tier == "thorough"
+    scs = e5.gen_write_results(rng, thorough) + e5.gen_client_ops(rng, thorough)
+    for i, s in enumerate(scs):
+        s["id"] = i
+    res.samples += [{"tag": s["tag"], "first_steps": [json.dumps(x)[:140] for x in s["steps"][:4]]} for s in scs[:3]]
+    report_e5(res, "C18", e5.check_scripts(res, scs, wd, "c18"))
+    res.assumptions = E5_ASSUME
+    return res.finish(rule="(1) all four write callbacks x WriteResult {success, every standard exception, raw codes} behind a C-ABI "
+                           "server, observed by a raw TCP client; (2) 8 client operations x {genuine reply, exception replies with standard "
+                           "and raw codes, malformed reply, wrong function, silence, connection loss, not connected, disabled, destroyed "
+                           "channel} through rodbus_client_channel_* against a scripted peer: return code, wire bytes, the callback "
+                           "invoked, its payload, and exactly one completion + one on_destroy per call; (3) argument errors (zero / "
+                           "overflowing ranges, over-limit counts, empty lists, null channel): the completion must still fire exactly once")
+
+
+@check("C19")
+def c19(res, tier, rng, wd):
+    thorough = tier == "thorough"
+    vf.design_run(res, "C19", "FfiDatabase_MC", "FfiDatabase_MC.tla", "Spec", {"Writers": "{1, 2}", "Block": 3, "LockMode": '"txn"'},
+                  ["ReadsSeeWholeTransactions", "MutualExclusion"], workers=4)
+    vf.design_run(res, "C19", "FfiDatabase_MC-neg(lock per op)", "FfiDatabase_MC.tla", "Spec",
+                  {"Writers": "{1, 2}", "Block": 3, "LockMode": '"op"'}, ["ReadsSeeWholeTransactions"],
+                  expect_violation="ReadsSeeWholeTransactions", workers=4)
+    scs = e5.gen_db_seq(rng, 120 if thorough else 25, thorough) + e5.gen_db_stress(thorough)
+    res.samples += [{"tag": s["tag"], "first_steps": [json.dumps(x)[:160] for x in s.get("steps", [])[:3]]} for s in scs[:2]]
+    report_e5(res, "C19", e5.check_scripts(res, scs, wd, "c19"))
+    res.assumptions = E5_ASSUME + ["atomicity on the real code is stress-sampled (no deterministic scheduler between tokio, std::sync::Mutex "
+                                   "and FFI threads); the all-interleavings argument is the design-level model FfiDatabase_MC with its negative control"]
+    return res.finish(rule="random sequences of add / update / delete / get over 4 point types x 7 indices inside "
+                           "rodbus_server_update_database transactions interleaved with client reads straddling absent points (return "
+                           "values and replies judged by the per-type map of FfiTrace.tla); stress: writer threads set a 125-register "
+                           "(2000-coil) block to one common value per transaction while TCP clients read the whole block: no torn read")
